@@ -29,6 +29,11 @@ ASSUMPTIONS = ["snapshots compare values, dims, coords (values + attrs), attrs, 
 @st.composite
 def strategy_impl(draw, tier):
     sc = draw(scen_gen.any_family(max_calls=3))
+    # set_metrics is a registration, i.e. it is *meant* to change the Grid: it belongs to the set-up here
+    regs = [c for c in sc["calls"] if c["fn"] == "set_metrics"]
+    if regs:
+        sc["grid"]["post_setup"] = regs
+        sc["calls"] = [c for c in sc["calls"] if c["fn"] != "set_metrics"]
     n = len(sc["calls"])
     seq = draw(st.lists(st.integers(0, n - 1), min_size=1, max_size=3))
     if sc.get("grid") and sc["grid"].get("coords") and draw(st.integers(0, 3)) == 0:
@@ -65,6 +70,23 @@ def snap_obj(o):
     return o if isinstance(o, (str, int, float, bool, type(None))) else repr(o)
 
 
+def snap_generic(v, depth=0):
+    import xarray as xr
+
+    if isinstance(v, (str, int, float, bool, type(None))):
+        return v
+    if isinstance(v, xr.DataArray):
+        return {"DataArray": snap_array(v)}
+    if isinstance(v, dict) and depth < 4:
+        return {"dict": {repr(k): snap_generic(x, depth + 1) for k, x in v.items()}}
+    if isinstance(v, (list, tuple, set, frozenset)) and depth < 4:
+        items = [snap_generic(x, depth + 1) for x in v]
+        return {"seq": sorted(items, key=repr) if isinstance(v, (set, frozenset)) else items}
+    if isinstance(v, np.ndarray):
+        return {"ndarray": v.tolist()}
+    return type(v).__name__
+
+
 def snap_env(env):
     s = {"arrays": {k: snap_array(v) for k, v in env.arrays.items()},
          "objects": {str(k): snap_obj(v) for k, v in env.objects.items()},
@@ -80,6 +102,8 @@ def snap_env(env):
                      for n, a in g.axes.items()},
             "metrics": {"/".join(sorted(map(str, k))): [str(m.name) for m in v] for k, v in g._metrics.items()},
             "face_connections": snap_obj(g._face_connections) if g._face_connections else None,
+            # everything else the Grid object holds (caches a call might leave behind included)
+            "other_attributes": {k: snap_generic(v) for k, v in sorted(vars(g).items()) if k not in ("axes", "_metrics", "_face_connections", "_ds")},
         }
     return s
 
